@@ -263,6 +263,12 @@ impl Ctx {
             K::DidReuseInternedValue { key, .. } => (Ev::DidReuseInterned(key.into()), None),
             K::DidValidateInternedValue { key, .. } => (Ev::DidValidateInterned(key.into()), None),
         };
+        fault::note_event(match &e {
+            Ev::WillDiscardStale { .. } => 1,
+            Ev::DidDiscard(_) => 2,
+            Ev::DidDiscardAcc { .. } => 3,
+            _ => 0,
+        });
         if e != Ev::WillCheckCancel {
             self.push(Rec::Ev(tid, e));
         }
@@ -826,12 +832,23 @@ impl World {
         self.ctx.cells.lock().unwrap()[cell as usize] = val;
     }
 
-    pub fn evict(&mut self) {
-        self.db.trigger_lru_eviction();
+    pub fn evict(&mut self) -> Result<(), Pan> {
+        let db = &mut self.db;
+        catch_unwind(AssertUnwindSafe(|| db.trigger_lru_eviction())).map_err(classify_panic)
     }
 
-    pub fn lru_cap(&mut self, cap: usize) {
-        lru::set_lru_capacity(&mut self.db, cap);
+    pub fn lru_cap(&mut self, cap: usize) -> Result<(), Pan> {
+        let db = &mut self.db;
+        catch_unwind(AssertUnwindSafe(|| lru::set_lru_capacity(db, cap))).map_err(classify_panic)
+    }
+
+    /// current value of an input field, read outside any query (harness bookkeeping only)
+    pub fn peek(&self, slot: u8, field: u8) -> u32 {
+        let prev = fault::pause();
+        let s = self.ctx.slot(slot);
+        let v = if field == 0 { s.f0(&self.db) } else { s.f1(&self.db) };
+        fault::resume(prev);
+        v
     }
 
     pub fn get(&self, node: u8, arg: u8) -> Result<Got, Pan> {
@@ -880,15 +897,18 @@ impl World {
         .map_err(classify_panic)
     }
 
-    pub fn intern_top(&self, ty: u8, x: u32) -> (u8, u64, u32) {
+    pub fn intern_top(&self, ty: u8, x: u32) -> Result<(u8, u64, u32), Pan> {
         let db = &self.db;
-        let s = match ty {
-            0 => SymAny::S1(Sym1::new(db, SV(x))),
-            1 => SymAny::S2(Sym2::new(db, SV(x))),
-            2 => SymAny::S3(Sym3::new(db, SV(x))),
-            _ => SymAny::SI(SymImm::new(db, FV(x))),
-        };
-        (s.ty(), s.id(), s.x(db))
+        catch_unwind(AssertUnwindSafe(|| {
+            let s = match ty {
+                0 => SymAny::S1(Sym1::new(db, SV(x))),
+                1 => SymAny::S2(Sym2::new(db, SV(x))),
+                2 => SymAny::S3(Sym3::new(db, SV(x))),
+                _ => SymAny::SI(SymImm::new(db, FV(x))),
+            };
+            (s.ty(), s.id(), s.x(db))
+        }))
+        .map_err(classify_panic)
     }
 
     pub fn take_log(&self) -> Vec<Rec> {
